@@ -154,11 +154,15 @@ def main():
         run.extra['handler_chain'] = chain
         if findings or any(o['verdict'] != o['expect'] for o in run.obls):
             scen = 'concurrent' if not okm else ('slow' if (not okp or slow_needed) else 'mix')
-            try:
-                failed, panicked, out = driver.replay_native('server', 'server', ['c20_native.go'], 'VerifHarness_C20_Native', {'str:scenario': scen}, timeout=1500)
-            except Exception as x:  # noqa
-                failed, panicked, out = [], False, repr(x)
-                run.inconclusive.append('native replay failed to run: %r' % (x,))
+            failed, panicked, out = [], False, ''
+            for sc in [scen] + [x for x in ('concurrent', 'mix') if x != scen]:
+                try:
+                    failed, panicked, out = driver.replay_native('server', 'server', ['c20_native.go'], 'VerifHarness_C20_Native', {'str:scenario': sc}, timeout=1500)
+                except Exception as x:  # noqa
+                    failed, panicked, out = [], False, repr(x)
+                    run.inconclusive.append('native replay failed to run: %r' % (x,))
+                if failed or panicked:
+                    break
             if failed or panicked:
                 run.violation('%s -- reproduced natively (real server, request mix, /metrics scrape): %s' % ((findings or ['metrics wiring'])[0], (sorted(set(failed)) or ['panic'])[:2]),
                               {'findings': findings, 'native_failed': sorted(set(failed)), 'native_output_tail': out[-1500:]}, key='C20:' + (findings or ['x'])[0][:40])
